@@ -204,6 +204,14 @@ fn must_fail(w: &World, c: &ACall) -> Option<&'static str> {
             if matches!(user_op_mode(op), Some(m) if m != 0) {
                 return Some("custom operation whose instantiation is rejected");
             }
+            match op {
+                Operation::Input(t) | Operation::Zeros(t) | Operation::Ones(t) | Operation::Random(t) | Operation::Constant(t, _) | Operation::Reshape(t)
+                    if !crate::wellformed::type_ok(t) =>
+                {
+                    return Some("operation carrying an invalid type (empty/zero/overflowing shape or duplicate field names)");
+                }
+                _ => {}
+            }
             for d in deps {
                 let (dg, _) = &w.nodes[d];
                 if dg != graph {
@@ -586,8 +594,37 @@ fn step(w: &mut World, idx: usize, c: &ACall, st: &mut ApiStats) -> Option<(Stri
 
 // ---- history generation ----------------------------------------------------------------------
 
+/// Types that no node may carry: empty / zero / overflowing array shapes, named tuples with a repeated field name
+/// (adjacent or not), also nested inside other containers.
+fn invalid_type(rng: &mut Rng) -> Type {
+    use ciphercore_base::data_types::named_tuple_type;
+    let st = crate::gen::ALL_ST[rng.usize_below(11)];
+    let s = scalar_type(st);
+    let base = match rng.below(7) {
+        0 => Type::Array(vec![], st),
+        1 => array_type(vec![2, 0, 3], st),
+        2 => array_type(vec![1 << 32, 1 << 32, 2], st),
+        3 => named_tuple_type(vec![("a".into(), s.clone()), ("a".into(), s.clone())]),
+        4 => named_tuple_type(vec![("a".into(), s.clone()), ("b".into(), array_type(vec![2], BIT)), ("a".into(), s.clone())]),
+        5 => named_tuple_type(vec![("x".into(), s.clone()), ("y".into(), s.clone()), ("z".into(), s.clone()), ("y".into(), s.clone())]),
+        _ => named_tuple_type(vec![("b".into(), s.clone()), ("a".into(), s.clone()), ("c".into(), s.clone()), ("b".into(), s.clone())]),
+    };
+    match rng.below(4) {
+        0 => vector_type(2, base),
+        1 => tuple_type(vec![s, base]),
+        2 => named_tuple_type(vec![("p".into(), s), ("q".into(), base)]),
+        _ => base,
+    }
+}
+
 fn small_type(rng: &mut Rng) -> Type {
     let st = crate::gen::ALL_ST[rng.usize_below(11)];
+    if rng.chance(1, 12) {
+        return invalid_type(rng);
+    }
+    if rng.chance(1, 10) {
+        return ciphercore_base::data_types::named_tuple_type(vec![("b".into(), scalar_type(st)), ("a".into(), array_type(vec![2], BIT)), ("c".into(), scalar_type(st))]);
+    }
     match rng.below(5) {
         0 => scalar_type(st),
         1 => array_type(vec![1 + rng.below(4)], st),
